@@ -29,6 +29,7 @@ THEOREMS = [
     "panic_witnesses_regression",
     "dml_atomic", "dml_atomic_at_root_unsound", "dml_all_or_nothing",
     "dml_atomic_on_silent_end", "dml_silent_end_regression",
+    "failed_dml_leaves_table", "dml_invisible_before_commit", "commit_publishes_exactly",
     "delivery_complete", "delivery_incomplete_witness",
 ]
 
@@ -114,6 +115,12 @@ def oracle(rec):
         dml_op = rec["stmt"].split()[0].lower()
         if rec["class"] == "err" and not rec["tables_eq_pre"] and not rec["root"]:
             out.append(("fault:failed-dml-changes-table/%s" % dml_op, "`%s` failed (%s at %s) but the tables changed" % (rec["stmt"], rec["kind"], where)))
+        if rec["class"] == "err" and rec.get("reopen_eq_pre") is False and not rec["root"]:
+            out.append(("fault:failed-dml-changes-table-after-reopen/%s" % dml_op, "`%s` (%s engine) failed (%s at %s); after closing and reopening the database the tables differ from the pre-statement content" % (rec["stmt"], rec["engine"], rec["kind"], where)))
+        if rec["class"] == "err" and rec.get("publishes") and not rec["root"]:
+            out.append(("fault:rowset-published-before-commit/%s" % dml_op, "`%s` (%s engine) failed (%s at %s) but the transaction had already handed row-sets to the version manager (%s): a failed statement's rows are visible" % (rec["stmt"], rec["engine"], rec["kind"], where, rec["publishes"][:2])))
+        if rec["class"] == "ok" and rec.get("reopen_eq_now") is False:
+            out.append(("fault:committed-dml-differs-after-reopen/%s" % dml_op, "`%s` (%s engine) returned Ok; after closing and reopening the database the tables differ from what the session saw" % (rec["stmt"], rec["engine"])))
         if rec["class"] == "ok" and not rec["tables_eq_post"]:
             if rec["kind"] == "panic":
                 out.append(("fault:silent-end-commits-prefix/%s" % dml_op,
@@ -309,6 +316,29 @@ def run(ck):
                 info["fired-%s-unreported-but-answer-complete" % r["kind"]] += 1
             if r["dml"] and r["root"] and r["class"] == "err" and not r["tables_eq_pre"]:
                 info["post-commit-injection-at-dml-task(hook artefact)"] += 1
+
+    # ---- the write transaction (roll-over of row-sets) vs the model, disk engines, INSERT statements
+    txn_recs = [r for r in recs if r["type"] == "fault" and r["dml"] and r["engine"].startswith("disk")
+                and r["stmt"].lower().startswith("insert") and not r["root"] and r["pre_same"]]
+    if txn_recs:
+        reqs = ["(txn %d %s)" % (1 if r["engine"] == "diskt" else 256 * (1 << 20), " ".join(str(c) for c in r["consumed"])) for r in txn_recs]
+        rc3, ans3 = vlib.sh([vlib.lean_exe("drv_c15")], stdin="\n".join(reqs) + "\n", timeout=600)
+        for r, a in zip(txn_recs, ans3.split("\n")):
+            t = a.split()
+            if len(t) < 8:
+                continue
+            started, visible = int(t[1]), int(t[5])
+            mvi["compared"] += 1
+            dist["content_compared"]["write-txn:%s" % r["engine"]] += 1
+            exp_pub = 1 if (r["class"] == "ok" and started > 0) else 0
+            d = []
+            if r["mkdirs"] != started:
+                d.append("row-sets started: impl %d (persist.rowset.mkdir), model %d for chunks %s" % (r["mkdirs"], started, r["consumed"]))
+            if len(r["publishes"]) != exp_pub or visible != 0:
+                d.append("row-set publications (vm.commit.begin add:…): impl %s, model %d (only at commit)" % (r["publishes"], exp_pub))
+            if d:
+                mvi["disagree"] += 1
+                disagree_by_shape.setdefault("write-txn", (r, d))
 
     if first_disagree and first_disagree[0]["type"] != "fault":
         r, d = first_disagree
